@@ -398,6 +398,16 @@ fn m2(r: usize, n: usize) -> Vec<Small> {
         .collect()
 }
 
+fn jobs_extra_zerocol(names: &[String], limits: &[usize], jobs: &mut Vec<Job>, matrices: &mut usize) {
+    let m = Small::from_rows(7, &[&[0, 1, 3], &[1, 2, 4], &[0, 4, 5], &[2, 3]]);
+    *matrices += 1;
+    for name in names {
+        for mode in [Mode::Ternary(0.6), Mode::Subst(0.6)] {
+            jobs.push(Job { name: name.clone(), mname: "zerocol4x7".to_string(), m: m.clone(), mode, limits: limits.to_vec() });
+        }
+    }
+}
+
 pub fn run(run: &Run) -> i32 {
     let mut acc = Acc::new();
     let mut extra = serde_json::Map::new();
@@ -451,6 +461,8 @@ pub fn run(run: &Run) -> i32 {
             }
         }
         // check degrees 9 and 10 (and 17, 9, 18 in the thorough tier): beyond any small-degree fast path
+        // a variable that takes part in no check, and one of degree 1
+        jobs_extra_zerocol(&names, &limits, &mut jobs, &mut matrices);
         let mut wide = vec![("wide2x12", Small::from_rows(12, &[&[0, 1, 2, 3, 4, 5, 6, 7, 8], &[2, 3, 4, 5, 6, 7, 8, 9, 10, 11]]))];
         if run.thorough() {
             wide.push(("wide3x20", Small::from_rows(20, &[&[0, 1, 2, 3, 4, 5, 6, 7, 8, 9, 10, 11, 12, 13, 14, 15, 16], &[3, 5, 7, 9, 11, 13, 15, 17, 19], &[1, 2, 3, 4, 5, 6, 7, 8, 9, 10, 11, 12, 13, 14, 15, 17, 18, 19]])));
@@ -491,7 +503,7 @@ pub fn run(run: &Run) -> i32 {
         run,
         acc,
         Coverage {
-            rule: "36 implementation names (factory-built) x every matrix with all row weights >= 2 of the listed shapes (full power of the stated LLR alphabet) and six named matrices ({+a,-a,0}^n and every single/double substitution of a boundary value into each codeword's sign pattern), plus wide2x12 (check degrees 9 and 10; thorough also wide3x20 with degrees 17, 9, 18) with single/double substitutions into 8 evenly spaced codewords, and matrices with a check or a variable of degree 17, 65, 129, 257 (thorough 1025) or 1025 (4097) rows with ~20 LLR vectors each x iteration limits {0,1,2,3,10[,50]}. Alphabet: +-1, +-0, +-0.0625 (8-bit round-half boundary), +-0.0624, +-15.875 (=127/8), +-1e30, +-1e-30, +-1e-46 (flushes to 0 in f32), +-5e-324, +-3.7. Half of the (implementation, matrix) pairs receive the matrix through a redundant editing history (bottom-up columns, re-inserted and twice-toggled entries). Duplicate-free product; non-trivial = at least one iteration executed (sign pattern not a codeword and limit >= 1). Per-implementation counters of shortcut / success-after-iterations / failure are in counters.".into(),
+            rule: "36 implementation names (factory-built) x every matrix with all row weights >= 2 of the listed shapes (full power of the stated LLR alphabet) and six named matrices plus `zerocol4x7` (an all-zero column) ({+a,-a,0}^n and every single/double substitution of a boundary value into each codeword's sign pattern), plus wide2x12 (check degrees 9 and 10; thorough also wide3x20 with degrees 17, 9, 18) with single/double substitutions into 8 evenly spaced codewords, and matrices with a check or a variable of degree 17, 65, 129, 257 (thorough 1025) or 1025 (4097) rows with ~20 LLR vectors each x iteration limits {0,1,2,3,10[,50]}. Alphabet: +-1, +-0, +-0.0625 (8-bit round-half boundary), +-0.0624, +-15.875 (=127/8), +-1e30, +-1e-30, +-1e-46 (flushes to 0 in f32), +-5e-324, +-3.7. Half of the (implementation, matrix) pairs receive the matrix through a redundant editing history (bottom-up columns, re-inserted and twice-toggled entries). Duplicate-free product; non-trivial = at least one iteration executed (sign pattern not a codeword and limit >= 1). Per-implementation counters of shortcut / success-after-iterations / failure are in counters.".into(),
             exhaustive: true,
             extra,
             graph: None,
